@@ -18,6 +18,8 @@ pub const NAMES_ADV: &[&str] = &[
     "A", "a ", "Ab",
     // the controls that have a short escape (\b \t \n \f \r), alone and inside a name
     "\r", "\u{c}", "\u{8}", "a\r\nb", "x\u{c}y", "\u{b}\u{c}",
+    // a non-ASCII character before an apostrophe; brackets next to each other; form-style names
+    "Côte d'Ivoire", "José's", "é'", "日本's", "user[address][street]", "m[0][1]", "][", "a][b", "']['",
     // NUL (its only spelling in a Normalized Path is \u0000) and the replacement character as its look-alike
     "\u{0}", "a\u{0}b", "a\u{FFFD}b",
 ];
@@ -26,6 +28,7 @@ pub const NAMES_ADV: &[&str] = &[
 /// which the generator spells with the other kind of quotes so that no escape is involved.
 pub const NAMES_C15: &[&str] = &[
     "a", "b", "c", "d", "x", "list", "elems", "k1", "_u", "é", "0", "1", "a b", "key", "a/b", "~", "'a'", "\"a\"", "it's", "'", "\"", "a'", "'a", "\"b", "''",
+    "Côte d'Ivoire", "José's", "user[address][street]", "m[0][1]",
 ];
 
 // "Aa" and "BB" (and their concatenations) collide under the classic h*31+c string hash
@@ -47,7 +50,14 @@ pub fn edge_scalar(rng: &mut Rng) -> Value {
         7 => Value::Number(Number::from_f64(5e-324).unwrap()),
         8 => Value::String("x".repeat(300)),
         9 => Value::String("a.b*c(d)[e]^$|\\".to_string()),
-        10 => Value::String("ж日本\u{1F600}é".to_string()),
+        10 => {
+            if rng.chance(1, 2) {
+                Value::String("ж日本\u{1F600}é".to_string())
+            } else {
+                // integers above i64::MAX (held as u64 by serde_json)
+                Value::from(*rng.pick(&[18446744073709551615u64, 9223372036854775808u64, 9223372036854775807u64]))
+            }
+        }
         _ => Value::Number(Number::from_f64(0.1 + 0.2).unwrap()),
     }
 }
@@ -78,6 +88,8 @@ pub struct DocParams<'a> {
     pub names: &'a [&'a str],
     pub max_width: usize,
     pub long_arrays: bool,
+    /// one member name in six is mixed from two or three character classes
+    pub mixed_names: bool,
 }
 
 fn gen_node(rng: &mut Rng, p: &DocParams, depth: usize, budget: &mut usize) -> Value {
@@ -116,7 +128,7 @@ fn gen_node(rng: &mut Rng, p: &DocParams, depth: usize, budget: &mut usize) -> V
                 if *budget == 0 {
                     break;
                 }
-                let name = rng.pick(p.names).to_string();
+                let name = if p.mixed_names && rng.chance(1, 6) { mixed_name(rng) } else { rng.pick(p.names).to_string() };
                 if m.contains_key(&name) {
                     continue;
                 }
@@ -341,6 +353,10 @@ impl<'a> QGen<'a> {
         if self.safe_quotes {
             // one time in three a quote inside the name is written as an escape (\' or \"); the names
             // carry no backslash, so Value's and a faithful get still see the same text
+            if (n.contains('\'') || n.contains('"')) && rng.chance(1, 7) {
+                // the quote characters written as \u0027 / \u0022
+                return format!("'{}'", n.replace('\'', "\\u0027").replace('"', "\\u0022"));
+            }
             if (n.contains('\'') || n.contains('"')) && rng.chance(1, 3) {
                 if n.contains('\'') {
                     quote_single(&n)
@@ -981,10 +997,48 @@ pub fn content_value(text: &str) -> Value {
         root.insert("c".to_string(), Value::from(-1));
         return Value::Object(root);
     }
-    crate::report::from_json(text).expect("content json")
+    if let Some(rest) = text.strip_prefix("#records:") {
+        // a multi-megabyte document: N records with two sub-objects each (3N+2 containers)
+        let n: usize = rest.parse().unwrap_or(1000);
+        let recs: Vec<Value> = (0..n).map(|i| serde_json::json!({"a": {"x": (i % 7) as i64}, "b": {"y": (i % 3) as i64}})).collect();
+        return serde_json::json!({"r": recs, "c": 1});
+    }
+        crate::report::from_json(text).expect("content json")
 }
 
 /// The text a content is compared with at the end of a run (its own serialisation).
 pub fn content_text(text: &str) -> String {
     content_value(text).to_string()
+}
+
+/// A member name mixed from two or three character classes only (a name drawn from all classes at
+/// once nearly always holds a backslash or a control and so takes the same code path every time).
+pub fn mixed_name(rng: &mut Rng) -> String {
+    const CLASSES: &[&[&str]] = &[
+        &["a", "b", "key", "x1", "Z"],
+        &["é", "ö", "日本", "ж", "\u{1F600}"],
+        &["'", "''"],
+        &["\""],
+        &["\\"],
+        &["/", "~", "~0", "~1"],
+        &["[", "]", "][", "[0]"],
+        &[" ", ".", "$", "@", "*", ",", ":", "?"],
+        &["\n", "\t", "\r", "\u{1}", "\u{b}"],
+        &["0", "1", "-1", "00"],
+    ];
+    let k = 2 + rng.below(2);
+    let mut chosen: Vec<usize> = vec![];
+    while chosen.len() < k {
+        let c = rng.below(CLASSES.len());
+        if !chosen.contains(&c) {
+            chosen.push(c);
+        }
+    }
+    let n = 2 + rng.below(4);
+    let mut s = String::new();
+    for _ in 0..n {
+        let class = CLASSES[*rng.pick(&chosen)];
+        s.push_str(*rng.pick(class));
+    }
+    s
 }
